@@ -35,6 +35,18 @@ ThresholdTable(X, m, bt, ths, legend) ==
                                                   [agg |-> "mean", q |-> Zero, bt |-> bt, t |-> (IF ivs[k].lo = MInf THEN ivs[k].hi ELSE ivs[k].lo),
                                                    u |-> (IF ivs[k].hi = PInf THEN ivs[k].lo ELSE ivs[k].hi)])]]]]
 
+\* -r with several thresholds on a data axis: the reported score is the mean over the events of Intervals(-b, -r)
+AveragedTable(D, X, m, axis, bt, ths, legend) ==
+  LET ivs == Intervals(bt, ths)
+      cfgOf(k) == [agg |-> "mean", q |-> Zero, bt |-> bt, t |-> (IF ivs[k].lo = MInf THEN ivs[k].hi ELSE ivs[k].lo),
+                   u |-> (IF ivs[k].hi = PInf THEN ivs[k].lo ELSE ivs[k].hi)]
+  IN  [legend |-> legend,
+       rows |-> [r \in 1..NumSlices(X, axis) |->
+                   [desc |-> Descriptor(D, X, axis, r),
+                    scores |-> [i \in 1..X.n |->
+                                  LET parts == [k \in DOMAIN ivs |-> Score(X, m, i, axis, r, cfgOf(k))] IN
+                                  IF \E k \in DOMAIN parts : IsUndef(parts[k]) THEN Undef ELSE DivE(SumE(parts), Q(R(Len(ivs))))]]]]
+
 \* shape lemmas
 TableShape(D, X, m, axis, cfg, acc, legend) ==
   LET T == ScoreTable(D, X, m, axis, cfg, acc, legend) IN
